@@ -96,7 +96,7 @@ fn generate_proof(sec_param: usize, distance: (usize, usize), b: &[Fr], mat: &Ma
             let q = gp_index(sp_absorb(old(sponge).st@, AbsData::Field(fviews(res->Ok_0.v@))), ext_mat.m, j as nat);
             q < ext_mat.m && fviews((#[trigger] res->Ok_0.columns@[j])@) == mat_col(ext_mat, q as int)
               && res->Ok_0.paths@[j].leaf_index == q && q < col_tree.leaves@.len()
-              && path_valid(res->Ok_0.paths@[j], col_tree.rt, col_tree.leaves@[q as int]) },   // name=linear_codes.generate_proof.opens_the_transcript_derived_columns props=C13,C01
+              && path_valid(res->Ok_0.paths@[j], col_tree.rt, col_tree.leaves@[q as int]) },   // name=linear_codes.generate_proof.opens_the_transcript_derived_columns props=C13,C01,C11
         res is Ok ==> final(sponge).st@ == idx_state(sp_absorb(old(sponge).st@, AbsData::Field(fviews(res->Ok_0.v@))), get_num_bytes_spec(ext_mat.m), t_value(sec_param as int, distance, ext_mat.m as int) as nat),   // name=linear_codes.generate_proof.transcript_schedule props=C11
 //@body
 //@rw * /ext_mat_cols\[i\]\.clone\(\)/ => clone_vec_fr(&ext_mat_cols[i])
